@@ -275,6 +275,28 @@ def pickle_pairing(ctx) -> None:
     ctx.ob("PICKLE-pairing", "__dict__", s.loc(), whole,
            "__setstate__ restores the whole instance dictionary" if whole else
            "__setstate__ does not restore self.__dict__")
+    # nothing is dropped from the saved dictionary, and nothing else is recomputed on load
+    dropped = []
+    for n in ast.walk(g.node):
+        if isinstance(n, ast.Delete):
+            dropped += [util.text(t, 50) for t in n.targets]
+        elif isinstance(n, ast.Call) and isinstance(n.func, ast.Attribute) and n.func.attr in ("pop", "popitem", "clear") \
+                and not n.func.attr.startswith("_"):
+            dropped.append(util.text(n, 50))
+    src = [e for e in gp[0].events if e.kind == "call" and e.name == ".copy" and strip_typed(e.recv) == ("attr", SELF, "__dict__")]
+    ret_ok = bool(src) and strip_typed(gp[0].retval) == strip_typed(src[0].result)
+    ctx.ob("PICKLE-whole", "__getstate__ saves every attribute", g.loc(), ret_ok and not dropped,
+           "__getstate__ returns a copy of the whole __dict__ with no entry removed" if ret_ok and not dropped else
+           ("__getstate__ removes " + ", ".join(dropped) if dropped else "__getstate__ does not return self.__dict__.copy()")
+           + ": that part of the driver state is not in the autosave file, and what a resumed run uses instead is "
+             "recomputed at load time, not the value the interrupted run had")
+    extra = [e for e in sp[0].events if e.kind == "setattr" and e.target[0] == SELF and e.name != "__dict__"
+             and e.name not in restored]
+    ctx.ob("PICKLE-whole", "__setstate__ recomputes nothing", s.loc(), not extra,
+           "__setstate__ sets only the entries __getstate__ transformed; every other attribute is the saved value"
+           if not extra else
+           f"__setstate__ recomputes self.{extra[0].name} = {show(extra[0].value)[:80]} instead of restoring the saved "
+           f"value: the resumed run continues from a state the interrupted run never had")
     # class-level defaults are immutable (so all mutable driver state lives in __dict__)
     bad = []
     for C in [K] + prog.subclasses(K, strict=True):
